@@ -185,15 +185,27 @@ def run(ck):
             # existing X-Label values that look like template syntax belong to C12 (F-07), not here
             fields = [(k, bl, rng.choice([b'old', b'a b', b'', b'keep me', b'x\n y'])) if k.lower() == b'x-label' else (k, bl, v)
                       for k, bl, v in fields]
+            if round_ % 3 == 2 and i % 2 == 0:
+                # several X-Label fields (plain, folded, empty), spread over the header block
+                for v_ in rng.sample([b'one', b'two', b'work,\n urgent', b'', b'inbox'], rng.choice([2, 3])):
+                    fields.insert(rng.randrange(len(fields) + 1), (rng.choice([b'X-Label', b'x-label', b'X-LABEL']), b' ', v_))
             text = msggen.render_text(fields, body)
             if len(text) > 20000:
                 continue
             name = sb.add(md, 'new', text)
             msgs[name] = (fields, body, text)
         label = rng.choice([b'L', b'two words', b'x1'])
-        hk, hv = rng.choice([(b'X-Added', b'v 1'), (b'Subject', b'replaced'), (b'x-label', b'direct')])
+        hk, hv = rng.choice([(b'X-Added', b'v 1'), (b'Subject', b'replaced'), (b'x-label', b'direct'),
+                             (b'X-MS-Exchange-Organization-AuthAs', b'Internal'), (b'X-MS-Exchange-Organization-AuthSource-Ext', b'host')])
         conf = b'maildir "%s" {\n match all label %s pass\n match all add-header %s %s\n}\n' % (
             md.encode(), mdrun.conf_quote(label), mdrun.conf_quote(hk), mdrun.conf_quote(hv))
+        two_labels = None
+        if round_ % 3 == 2 and hk.lower() != b'x-label':
+            # two label actions (in one rule, or in two rules joined by pass) on messages that may carry several X-Label fields
+            two_labels = (rng.choice([b'a', b'first one']), rng.choice([b'b', b'second']))
+            form = rng.randrange(2)
+            conf = (b'maildir "%s" {\n match all label %s label %s\n}\n' if form == 0 else b'maildir "%s" {\n match all label %s pass\n match all label %s\n}\n') % (
+                md.encode(), mdrun.conf_quote(two_labels[0]), mdrun.conf_quote(two_labels[1]))
         cp = sb.write_conf(conf)
         rc, out, err = sb.run([], conf=cp)
         after = sb.snapshot(md)
@@ -208,6 +220,8 @@ def run(ck):
             buf = b' '.join(vals)
             lab = (buf + b' ' if buf else b'') + label
             sets = [(b'X-Label', lab), (hk, hv)]
+            if two_labels:
+                sets = [(b'X-Label', (buf + b' ' if buf else b'') + two_labels[0] + b' ' + two_labels[1])]
             req = request(text, sets)
             exp = written(common.run_lines(model, [req])[0][0])
             stats['evals'] += 1
@@ -223,7 +237,7 @@ def run(ck):
                              {'stream': 'binary', 'message_hex': hexs(text), 'config': conf.decode(errors='replace'),
                               'model_hex': hexs(exp or b''), 'obligation': 'correspondence binary label/add-header'}, found_input=False)
             else:
-                ck.violation('after "label %r; add-header %r %r" no file in the maildir is a faithful rewrite of message %r... (exit %d, stderr %r)'
+                ck.violation('after ' + ('two label actions %r' % (two_labels,) if two_labels else '') + '"label %r; add-header %r %r" no file in the maildir is a faithful rewrite of message %r... (exit %d, stderr %r)'
                              % (label, hk, hv, text[:80], rc, err[-200:]),
                              {'stream': 'binary', 'message_hex': hexs(text), 'config': conf.decode(errors='replace'),
                               'expected_hex': hexs(exp or b''), 'exit': rc})
